@@ -380,6 +380,10 @@ pub fn check(thorough: bool, _seed: u64) -> Check {
         ps.push(extra.clone());
         ls.push(extra);
     }
+    // breakpoints next to 1, where ln changes sign and is tiny (log pieces only)
+    for extra in [vec![0.5, 1.00005, 2.0], vec![0.99995, 1.00005, 3.0], vec![0.9999999, 1.0, 1.0000001, 2.0], vec![1.00005]] {
+        ls.push(extra);
+    }
     let poly_shapes = Arc::new(ps);
     let log_shapes = Arc::new(ls);
     let (np, nl) = (poly_shapes.len(), log_shapes.len());
@@ -429,7 +433,7 @@ pub fn check(thorough: bool, _seed: u64) -> Check {
             }
         }),
         classes: vec![("k0.x_inside_first_piece", true), ("k0.x_at_first_end", true), ("k0.x_beyond_first_end", true), ("k0.x_at_second_end", true), ("k0.x_at_third_end", true), ("k0.x_at_last_end", true), ("k0.x_beyond_last_end", true), ("duplicate_breakpoints", true)],
-        bounds: json!({"piece_types": "Log<Poly0>..Log<Poly8>", "shapes": format!("end lists of length 1..{maxlen} over {{0.5,1,2,4}}"), "per piece": "as for polynomial pieces", "k0": "as for polynomial pieces (x>0)", "evaluation points": "positive finite part of A(ends)"}),
+        bounds: json!({"piece_types": "Log<Poly0>..Log<Poly8>", "shapes": format!("end lists of length 1..{maxlen} over {{0.5,1,2,4}}; [0.5,1.00005,2], [0.99995,1.00005,3], [1-1e-7,1,1+1e-7,2], [1.00005] (breakpoints next to 1)"), "per piece": "as for polynomial pieces", "k0": "as for polynomial pieces (x>0)", "evaluation points": "positive finite part of A(ends)"}),
     };
     // big functions around size thresholds (the running knot is threaded through hundreds of pieces)
     let big: Vec<Vec<f64>> = [9usize, 17, 33, 65, 129, 257, 300].into_iter().chain(if thorough { vec![513usize, 1025] } else { vec![] })
@@ -525,11 +529,80 @@ pub fn check(thorough: bool, _seed: u64) -> Check {
         bounds: json!({"piece_types": "Poly0..Poly3", "layouts": "k0.x = -X before breakpoints [0.5,2,3]; breakpoints [-X,0.25,2] with k0.x = -X; breakpoints [-2X,-X,0.5,2] with k0.x = -2.5X; X in {1e16, 3e15, 1e12, 1e9}",
             "coefficients": "pieces on the far side scaled so that c_i X^(i+1) is of order one, the others of order one", "k0.y": "{0, 2.5, -1e3}"}),
     };
+    // every number of pieces 9..80 (160 thorough) for a polynomial and a log piece type (loops that treat the middle, the last or
+    // every k-th piece specially), one knot position each
+    let every = Phase {
+        name: "every-number-of-pieces",
+        units: 2,
+        split: 1,
+        body: Box::new(move |unit, cx| {
+            let n = 9 + cx.choose(if thorough { 152 } else { 72 });
+            let ends: Vec<f64> = (0..n).map(|i| 0.5 + i as f64 * 0.125).collect();
+            let ks = [0usize, 9][cx.choose(2)];
+            if unit == 0 { run::<Poly2>(&ends, cx, ks) } else { run::<Log<Poly1>>(&ends, cx, ks) }
+        }),
+        classes: (0..8).map(|i| (["k0.x_inside_first_piece", "k0.x_at_first_end", "k0.x_beyond_first_end", "k0.x_at_second_end", "k0.x_at_third_end", "k0.x_at_last_end", "k0.x_beyond_last_end", "duplicate_breakpoints"][i], false)).collect(),
+        bounds: json!({"piece_types": "Poly2, Log<Poly1>", "pieces": if thorough {"every n from 9 to 160"} else {"every n from 9 to 80"}, "k0": "2 knot positions"}),
+    };
+    // very long functions, structure only (piece counts and indices beyond 16-bit): the number of pieces, every breakpoint on
+    // bits, the three ways of integrating agree on bits, and the pieces agree at 64 spread breakpoints to 1e-9 of the value
+    let huge = Phase {
+        name: "very-long-functions-structure",
+        units: 2,
+        split: 0,
+        body: Box::new(move |unit, cx| {
+            let n = [65537usize, 70001, 131075][cx.choose(if thorough { 3 } else { 2 })];
+            cx.nontrivial();
+            cx.evals(3);
+            if cx.sampling() {
+                cx.sample(json!({"pieces": n, "piece_type": if unit == 0 { "Poly1" } else { "Log<Poly1>" }}));
+            }
+            fn go<T>(n: usize, name: &str) -> Verdict
+            where
+                T: Nums + Copy + HasIntegral,
+                T::IntegralOf: Nums + Evaluate + Translate + Copy + PartialEq,
+            {
+                let f: Piecewise<T> = Piecewise { segments: (0..n).map(|i| Segment { end: 1.0 + i as f64 * 0.001953125, poly: T::from_nums(&[1.0 + (i % 7) as f64 * 0.25, -0.5 + (i % 3) as f64]) }).collect() };
+                let k0 = Knot { x: 1.0, y: 2.0 };
+                let r = guard(|| {
+                    let a = f.integral(k0);
+                    let b: Vec<Segment<T::IntegralOf>> = Segment::integral_iter_ref(f.segments.iter(), k0).collect();
+                    let c: Vec<Segment<T::IntegralOf>> = Segment::integral_iter(f.segments.clone(), k0).collect();
+                    (a, b, c)
+                });
+                let d = |o: Value| json!({"piece_type": name, "pieces": n, "ends": "1 + i/512", "observation": o});
+                let (a, b, c) = r.map_err(|p| Fail::new(format!("piecewise integration panicked: {p}"), d(json!(p))))?;
+                if a.segments.len() != n || b.len() != n || c.len() != n {
+                    return Err(Fail::new("integration changes the number of pieces", d(json!({"integral": a.segments.len(), "integral_iter_ref": b.len(), "integral_iter": c.len()}))));
+                }
+                for i in 0..n {
+                    if a.segments[i].end.to_bits() != f.segments[i].end.to_bits() {
+                        return Err(Fail::new("integration changes a breakpoint", d(json!({"index": i}))));
+                    }
+                    if a.segments[i] != b[i] || a.segments[i] != c[i] {
+                        return Err(Fail::new("Piecewise::integral, integral_iter_ref and integral_iter (by value) do not produce identical pieces", d(json!({"index": i}))));
+                    }
+                }
+                for j in 0..64 {
+                    let i = (j * (n - 2)) / 63;
+                    let e = a.segments[i].end;
+                    let (l, r) = (a.segments[i].poly.evaluate(e), a.segments[i + 1].poly.evaluate(e));
+                    if !(l.is_finite() && r.is_finite()) || (l - r).abs() > 1e-9 * (1.0 + l.abs()) {
+                        return Err(Fail::new("integral(k0): adjacent pieces disagree at an interior breakpoint", d(json!({"breakpoint_index": i, "left": fj(l), "right": fj(r)}))));
+                    }
+                }
+                Ok(())
+            }
+            if unit == 0 { go::<Poly1>(n, "Poly1") } else { go::<Log<Poly1>>(n, "Log<Poly1>") }
+        }),
+        classes: vec![],
+        bounds: json!({"piece_types": "Poly1, Log<Poly1>", "pieces": if thorough {"65537, 70001, 131075"} else {"65537, 70001"}, "comparison": "number of pieces, every breakpoint on bits, integral == integral_iter_ref == integral_iter piece by piece, continuity at 64 spread breakpoints to 1e-9 relative (floating point, no exact reference at this size)"}),
+    };
     Check {
         id: "C11",
         rule: "choice tree: (piece type, shape) unit x k0 x one coefficient vector per piece (the running knot threaded from piece to piece is the state, each piece one step); each leaf runs the real Piecewise::integral, indefinite, integral_iter_ref and integral_iter; non-trivial = >=3 pieces or k0.x strictly inside the first piece".into(),
         assumptions: vec!["f64::ln within 1 ulp (propagated into the tolerance)".into(), "tolerance 2^-40 * sum of the magnitudes of the terms of the pieces involved (accumulated constants included)".into()],
-        phases: vec![poly, log, bigp, cube, far],
+        phases: vec![poly, log, bigp, cube, far, every, huge],
         extra: Default::default(),
         controls: vec![],
     }
